@@ -330,6 +330,12 @@ example : Good FS.frameDec { buf := if [0x04, 0x00] = [] then [] else [[0x04, 0x
       2..9 (the callers pass constants in these ranges) never hit `assert!(size <= 8)`, the
       `u8` shifts or `size - 1` — on every byte string (C15);
     * the Huffman decoder never runs out of the model's bound (C15);
+    * the Huffman decoder's machine arithmetic — its `u32` bit positions, the `u8` / `u16` shifts and
+      the slice indexings of `read_bits` — never overflows: `prefix_string::decode` with every one of
+      these operations checked (`decodeGC?`) is the unchecked model on EVERY byte string, because the
+      repaired function refuses a Huffman literal whose bit length + 16 does not fit `u32` before the
+      decoder sees it (D-06u, `C15_huffman_positions_fit`; the tree under check has the refusal when the
+      translator's `hugeLiteralRefused` says so);
     * `Header::try_from` + `into_request_parts` / `into_response_parts` / `into_fields` on every
       field list return `Ok` or a `HeaderError`, never the panic outcome (C12, after 8fb18d1; also
       with the D-01 repair, where a map that cannot be pre-sized starts empty and a full map is
@@ -342,10 +348,27 @@ theorem C06_field_sections :
     (∀ (n : Nat) (bs : List Nat), 2 ≤ n → n ≤ 9 → Varint.WF bs →
       PrefixString.decode? n bs = some (PrefixString.decode n bs)) ∧
     (∀ b : List Nat, Varint.WF b → Huffman.hdecodeX b ≠ .error .fuel) ∧
+    (H3.Gen.HuffDec.hugeLiteralRefused = true → ∀ (n : Nat) (bs : List Nat), 2 ≤ n → n ≤ 9 → Varint.WF bs →
+      PrefixString.decodeGC? true n bs = some (PrefixString.decode n bs)) ∧
     (∀ (H : Headers.Http) (fs : List Headers.FieldLine),
       Headers.recvRequest H fs ≠ .panic ∧ Headers.recvResponse H fs ≠ .panic ∧
       Headers.recvTrailers H fs ≠ .panic) := by
-  refine ⟨fun b max => (H3.Props.C10.C10_recv_no_wrap b max).1, ?_, ?_, ?_, ?_, H3.Props.C12.C12_no_panic⟩
+  have hstr : ∀ (n : Nat) (bs : List Nat), 2 ≤ n → n ≤ 9 → Varint.WF bs →
+      PrefixString.decode? n bs = some (PrefixString.decode n bs) := by
+    intro n bs h2 h9 hwf
+    have hi := H3.Props.C15.C15_prefix_int_no_panic (n - 1) (by omega) (by omega) bs hwf
+    have hsome : ∃ x, PrefixString.decode? n bs = some x := by
+      unfold PrefixString.decode? PrefixString.decodeG?
+      rw [if_neg (by omega), hi]
+      cases PrefixInt.decode (n - 1) bs with
+      | endOf => exact ⟨_, rfl⟩
+      | overflow => exact ⟨_, rfl⟩
+      | ok flags len rest =>
+        simp only
+        split <;> exact ⟨_, rfl⟩
+    obtain ⟨x, hx⟩ := hsome
+    simp [PrefixString.decode, hx]
+  refine ⟨fun b max => (H3.Props.C10.C10_recv_no_wrap b max).1, ?_, ?_, hstr, ?_, ?_, H3.Props.C12.C12_no_panic⟩
   · intro mfs applied block
     have h431 : Qpack.encodeStateless? Qpack.response431 =
         some ([0, 0, 0x5f, 0x09, 0x83, 0x69, 0x90, 0xff], 42) := by decide +kernel
@@ -358,16 +381,11 @@ theorem C06_field_sections :
       by_cases hlim : 42 > Qpack.peerLimit applied <;> simp [hlim]
   · intro n bs h1 h8 hwf
     exact H3.Props.C15.C15_prefix_int_no_panic n h1 h8 bs hwf
-  · intro n bs h2 h9 hwf
-    have hi := H3.Props.C15.C15_prefix_int_no_panic (n - 1) (by omega) (by omega) bs hwf
-    have hsome : ∃ x, PrefixString.decode? n bs = some x := by
-      unfold PrefixString.decode?
-      rw [if_neg (by omega), hi]
-      cases PrefixInt.decode (n - 1) bs <;> exact ⟨_, rfl⟩
-    obtain ⟨x, hx⟩ := hsome
-    simp [PrefixString.decode, hx]
   · intro b hb
     exact (H3.Props.C15.C15_huffman_accepts_exactly_partial b hb []).2.2.2.2.2
+  · intro hg n bs h2 h9 hwf
+    rw [((H3.Props.C15.C15_huffman_positions_fit).2.2.1 hg n bs).2]
+    exact hstr n bs h2 h9 hwf
 
 example : Qpack.decodeStateless [0, 0, 0x5f, 0x09, 0x81] 1000 = .err (.invalidString .unexpectedEnd) := by
   decide +kernel
